@@ -1283,7 +1283,7 @@ _SCALE_NOTE = (" Scale profiles (families scale_*): the same executors and model
                "histories of thousands of rounds; EINTR bursts of 255 ... 4097 (2^16 ... 2^21+1 harness-only) at a carry-over refill; block sizes 2^k-1 "
                "that leave one byte of room in the arena chunk; owners of arena memory dropped by the unwinder of a caught panic. Extra direct oracles "
                "in the wrapper: C03 readable = total_size when nothing is pending, C05 overlapping arena slices in one iovec / bytes changing under a "
-               "live anchored slice, C01 the real decoder gives the input back from drained ++ finish(), C09 drained ++ consumable is a growing prefix and drained ++ finish() equals a one-call run, C10 counters after a "
+               "live anchored slice (C11 / C12: the executors' own reference-layout and accessor oracles on 255 ... 65537 pairs), C01 the real decoder gives the input back from drained ++ finish(), C09 drained ++ consumable is a growing prefix and drained ++ finish() equals a one-call run, C10 counters after a "
                "caught panic, C17 request sizes. 'harness-only' cases run the real code and the oracles but are not replayed by the model.")
 
 def _scale(pid, name, obs, quick, thorough, search, shards_q=8):
@@ -1306,5 +1306,8 @@ _scale("C17", "scale_chunker", None, 16, 320, 640)
 _scale("C17", "scale_codec", ["A", "S", "G", "R"], 4, 160, 320, 4)
 # counts of 2^16 ... 2^25 bytes (offers of 8 MiB and more), hard errors / EOF / EINTR bursts after a small delivery
 _scale("C17", "scale_readn", None, 8, 160, 320, 4)
+# 255 ... 65537 pairs per message / view (256-pair messages replayed by the model, larger ones harness-only)
+_scale("C11", "scale_tlv", None, 6, 120, 240, 8)
+_scale("C12", "scale_tlvview", None, 8, 160, 320, 4)
 # > 1024 borrowed pieces through the Encoder / Decoder with no drain, megabyte streams: round trip of drained ++ finish()
 _scale("C01", "scale_codec", ["A", "R"], 4, 160, 320, 4)
